@@ -47,6 +47,11 @@ fn gen_line(r: &mut Rng, g: &SemGen, lang: &str, names: &[NameUse]) -> Expr {
         0 | 1 => time_expr(r, g, names),
         2 | 3 | 4 => { let (zone, off) = g.zone(r); let zone = if r.chance(1, 4) { zone.to_lowercase() } else { zone }; Expr::ToZone { e: b(time_expr(r, g, names)), conn: conn(r), zone, off } }
         5 | 6 => Expr::Bin { l: b(time_expr(r, g, names)), op: *r.pick(&['+', '-']), r: b(dur(r, g, lang)), tight: false },
+        7 if !names.is_empty() && r.chance(1, 2) => { // a time held in a name against a literal (judged when both were read the same day)
+            let nm = r.pick(names).clone(); let v = Expr::Var(g.name_use(r, &nm));
+            let z = r.chance(1, 3); let lit = Expr::Lit(Lit::Time(g.time_lit(r, z)));
+            if r.chance(1, 2) { Expr::Between { a: b(v), b: b(lit) } } else { Expr::Between { a: b(lit), b: b(v) } }
+        }
         7 => { // difference of two literals in the same zone
             let zone = if r.chance(1, 6) { Some(g.zone(r)) } else { None };
             let mut t1 = g.time_lit(r, false);
